@@ -271,7 +271,7 @@ def rule_inv_panic(ctx):
     if stale:
         r.notes.append('table entries no longer matched (harmless): %s' % stale)
     r.notes.append('automatic: %s; by table: %d' % (dict(auto), sum(found.values())))
-    r.require_floor(25, 'panic-capable call sites')
+    r.require_floor(25 if ctx.has_sync else 10, 'panic-capable call sites')
     return r
 
 
@@ -339,7 +339,7 @@ def rule_inv_unsafe(ctx):
     for key in wanted:
         if key not in seen and any(n.startswith('sync::') for n in prog.bodies):
             r.notes.append('reviewed unsafe impl no longer present: %s' % key)
-    r.require_floor(15, 'unsafe groups, fns and impls')
+    r.require_floor(15 if ctx.has_sync else 6, 'unsafe groups, fns and impls')
     return r
 
 
@@ -388,7 +388,7 @@ def rule_ptr_guarded_call(ctx):
                 r.violate(c, 'unguarded-list-call', op.split('::')[-1], '%s calls the unsafe %s on a path where membership of the node in that deque was not established '
                           '(Deque::contains): unlinking / moving a node that is not in the list corrupts it or frees memory twice' % (c, op.split('::')[-1]),
                           where=ctx.where(c, line), expected='if deq.contains(node) { unsafe { deq.%s(node) } }' % op.split('::')[-1])
-    r.require_floor(12, 'unsafe list-operation call sites')
+    r.require_floor(12 if ctx.has_sync else 5, 'unsafe list-operation call sites')
     return r
 
 
@@ -549,3 +549,7 @@ def rule_deque_shape(ctx):
                           where=ctx.where(nid), expected='head == None <=> tail == None; len +-1')
     r.require_floor(8, 'list-operation paths')
     return r
+
+
+# release builds carry no overflow asserts: the arithmetic inventory is a statement about the checked (dev) program
+rule_inv_arith.skip_configs = ('release',)
